@@ -11,7 +11,7 @@ classification below is the ASCII restriction of Python's.
 import z3
 
 from . import core
-from .core import SymBool, SymInt, Unsupported, wrap_bool, wrap_int
+from .core import SymBool, SymInt, Unsupported, wrap_bool, wrap_int, _simp
 
 _WS = (9, 10, 11, 12, 13, 28, 29, 30, 31, 32)
 _counter = [0]
@@ -43,15 +43,40 @@ def _Or(xs):
     return z3.Or(*xs) if len(xs) > 1 else xs[0]
 
 
+_IV = {}
+_ctx = z3.main_ctx()
+
+
 def _t(c):
-    return z3.IntVal(c) if isinstance(c, int) else c
+    if isinstance(c, int):
+        v = _IV.get(c)
+        if v is None:
+            v = _IV[c] = z3.IntVal(c)
+        return v
+    return c
+
+
+def _mk_eq(a, b):
+    # z3's ExprRef.__eq__ spends most of its time coercing; both sides are Int terms here
+    return z3.BoolRef(z3.Z3_mk_eq(_ctx.ref(), a.as_ast(), b.as_ast()), _ctx)
 
 
 def _eqc(a, b):
     """char equality as python bool or z3 Bool"""
     if isinstance(a, int) and isinstance(b, int):
         return a == b
-    return _t(a) == _t(b)
+    return _mk_eq(_t(a), _t(b))
+
+
+_memo = {}
+
+
+def _memoized(tag, c, build):
+    k = (tag, c.get_id())
+    r = _memo.get(k)
+    if r is None:
+        r = _memo[k] = (build(c), c)  # keep `c` alive so that its id stays unique
+    return r[0]
 
 
 def _zb(x):
@@ -61,19 +86,19 @@ def _zb(x):
 def is_space(c):
     if isinstance(c, int):
         return c in _WS
-    return _Or(c == w for w in _WS)
+    return _memoized("sp", c, lambda c: z3.Or(z3.And(c >= 9, c <= 13), z3.And(c >= 28, c <= 32)))
 
 
 def is_letter(c):
     if isinstance(c, int):
         return (65 <= c <= 90) or (97 <= c <= 122) or c == 95
-    return z3.Or(z3.And(c >= 65, c <= 90), z3.And(c >= 97, c <= 122), c == 95)
+    return _memoized("le", c, lambda c: z3.Or(z3.And(c >= 65, c <= 90), z3.And(c >= 97, c <= 122), c == 95))
 
 
 def is_digit(c):
     if isinstance(c, int):
         return 48 <= c <= 57
-    return z3.And(c >= 48, c <= 57)
+    return _memoized("di", c, lambda c: z3.And(c >= 48, c <= 57))
 
 
 def _items_of(o):
@@ -89,7 +114,7 @@ def make(items):
     out = []
     for it in items:
         if not isinstance(it, int):
-            it = z3.simplify(it)
+            it = _simp(it)
             if z3.is_int_value(it):
                 it = it.as_long()
         out.append(it)
@@ -98,18 +123,27 @@ def make(items):
     return SymStr(out)
 
 
+_fresh_cache = {}
+
+
 def fresh(name, n, alphabet=None, lo=32, hi=126):
     """A fresh symbolic string of length n over `alphabet` (a str) or the code range lo..hi."""
     sp = core.space()
     items = []
     for i in range(n):
-        v = z3.Int(f"{name}_{i}")
+        key = (name, i, alphabet, lo, hi)
+        ent = _fresh_cache.get(key)
+        if ent is None:
+            v = z3.Int(f"{name}_{i}")
+            if alphabet is not None:
+                cons = [_Or(v == ord(c) for c in sorted(set(alphabet)))]
+            else:
+                cons = [v >= lo, v <= hi]
+            ent = _fresh_cache[key] = (v, cons)
+        v, cons = ent
         sp.inputs[f"{name}_{i}"] = v
-        if alphabet is not None:
-            sp._add(_Or(v == ord(c) for c in alphabet))
-        else:
-            sp._add(v >= lo)
-            sp._add(v <= hi)
+        for c in cons:
+            sp._add(c)
         items.append(v)
     sp.model = None
     return make(items)
@@ -147,7 +181,7 @@ class SymStr(str):
         return o
 
     def __getattribute__(self, name):
-        if name in _ALLOWED or name == "_h":
+        if name in _ALLOWED or name in ("_h", "_is", "_match_at"):
             return object.__getattribute__(self, name)
         if name.startswith("__") and name.endswith("__"):
             # unknown dunder: behave as missing (hasattr probes), but never fall to str's
